@@ -31,6 +31,11 @@ NEEDS = {
  "c12-g": ("own copy/relabel helpers that re-use the argument's per-bond attribute dicts", "caller edits a bond attribute of the result (or of the argument) after canonicalizing"),
  "c16-f": ("single-pass permutation that pairs sorted labels with iteration-order labels", "argument whose iteration order differs from its label order (canonicalized graph)"),
  "c16-g": ("retry loop re-shuffles `m_permu` in place; identity first shuffle returns `m` itself", "enforced molecule whose first shuffle is the identity: the caller's graph is relabelled in place"),
+ "c14-p": ("Hill-order sort key reads a module-level 'compound contains carbon' flag set just before sorting", "two threads serializing at once, one molecule with carbon and one without, switch within a few statements; victim has H and an element sorting before H"),
+ "c14-q": ("V2000 property block collects assignments in a mutable default argument that a successful read drains", "a V2000 file rejected part-way through its property block, then any accepted V2000 file"),
+ "c14-r": ("`WeakValueDictionary` from `id(input graph)` to the canonical result", "input graph freed while its result stays alive, a new graph of equal atom/bond counts allocated at the same address"),
+ "c12-h": ("serialize leaves a slim 'canonical form' in `m.graph`; canonicalize has a fast path returning a copy of it", "serialize(g) then canonicalize(g) (or of a copy): charges, coordinates, bond types are gone"),
+ "c16-h": ("retry path picks atoms to swap from a set of string tuples", "small symmetric molecule whose first shuffle needs a retry; two processes with different hash seeds"),
 }
 print("| seeded change | what it does | needs in order to manifest | tests / demo | reported by (quick tier, VERIF_SEED=1) |")
 print("|---|---|---|---|---|")
